@@ -31,7 +31,7 @@ func c02Configs(thorough bool) []c01Config {
 		c := c01Config{Name: name, Byz: byz, R: R, Crashes: crashes, Mode: mode, Dev: dev, MaxDepth: depth,
 			MaxStates: 4_000_000, BudgetS: 70, DiffEvery: 4, CrashInside: true}
 		if thorough {
-			c.MaxStates, c.BudgetS, c.DiffEvery = 12_000_000, 800, 1
+			c.MaxStates, c.BudgetS, c.DiffEvery = 12_000_000, 200, 2
 		}
 		cs = append(cs, c)
 	}
@@ -120,6 +120,10 @@ func TestVerifC02(t *testing.T) {
 	go func() { realWALDone <- c02RealWAL(r, exe, work) }()
 	ev.Par(len(cfgs), 16, func(i int) {
 		cfg := cfgs[i]
+		if r.Expired() {
+			r.Cap("configuration " + cfg.Name + " not started: wall-clock budget of the check used up")
+			return
+		}
 		if os.Getenv("VERIF_BUDGET_S") != "" {
 			fmt.Sscan(os.Getenv("VERIF_BUDGET_S"), &cfg.BudgetS)
 		}
